@@ -536,7 +536,7 @@ def gen_td_data(rng, ds):
 def td_sub(rng, g, where):
     inner = sorted(td_star_vars(where)) or list(g.vars[:1])
     x = rng.random()
-    proj = None if x < 0.2 else rng.sample(inner, rng.randint(1, len(inner))) if x < 0.85 else rng.sample(g.vars, 1)
+    proj = None if x < 0.3 else rng.sample(inner, rng.randint(1, len(inner))) if x < 0.88 else rng.sample(g.vars, 1)
     return {"k": "sub", "q": {"distinct": False, "proj": proj, "where": where, "group": None, "count": None, "order": None}}
 
 
@@ -589,6 +589,9 @@ def gen_td_focus(rng, g):
             els.append({"k": "grp", "g": {"k": "group", "els": inner}})
         else:
             els.append(gen_td_one(rng, g, els))
+    free = [v for v in g.vars if v not in all_vars(els)]
+    if free and rng.random() < 0.2:      # a BIND as the LAST element: the top of the algebra is an Extend
+        els.append({"k": "bind", "e": (g.var() if rng.random() < 0.6 else rng.choice(g.subs)), "v": rng.choice(free)})
     return {"k": "group", "els": els}
 
 
@@ -1924,6 +1927,18 @@ def run_impl(case):
         if a[0] == "err":
             stats["td_error"] = 1
         # the same data behind another store (`td_store_irrelevant`)
+        if q["proj"] is None:
+            # `SELECT *` against the same variables written out (`_findVars` + the projections of first-level
+            # sub-selects): another way of writing the query; the rows (bound items) must be the same
+            q4 = _copy(q)
+            q4["proj"] = list(case["star"])
+            if q4["proj"]:
+                d4 = evaluate(base_g, q4, init=ib)
+                compared += 1
+                stats["td_star_vs_explicit"] = 1
+                if (a[0], a[2:]) != (d4[0], d4[2:]):
+                    viol.append("td-star: SELECT * gives %s, SELECT %s gives %s [%s]"
+                                % (_short(a), " ".join(q4["proj"]), _short(d4), query_text(q)))
         if not ds:      # (a Dataset needs a graph-aware store: Memory only)
             kind = rng.choice(["aud", "simple"])
             c2 = evaluate(build(data, kind, ds, order_seed=seed), q, init=ib)
